@@ -269,6 +269,17 @@ impl Env {
         })
     }
 
+    /// LocustDB::evict_cache: every resident column of every partition is dropped from memory
+    pub fn evict(&self) -> OpHandle {
+        let (ctl, db) = (self.ctl.clone(), self.db.clone());
+        self.spawn("evict", Role::None, move || {
+            ctl.note(Role::None, "h:evict_start", None);
+            db.evict_cache();
+            ctl.note(Role::None, "h:evict_done", None);
+            OpRes::Done
+        })
+    }
+
     /// query instance `inst` of querier n; harness events h:qstart / h:qdone (note = instance)
     pub fn query(&self, n: usize, inst: usize, kind: QKind, deadline: Duration) -> OpHandle {
         let (ctl, rt, db) = (self.ctl.clone(), self.rt.clone(), self.db.clone());
